@@ -361,7 +361,10 @@ PROPS['C10']['standin'] = ['locale']
 PROPS['C17']['bounded'] = [B_FP]
 PROPS['C17']['verus'] = PROPS['C17']['verus'] + LOC_RT + LID_RT
 PROPS['C17']['kani'] = PROPS['C17']['kani'] + [K('langid_leaf', h) for h in ['leaf_variant_ord_is_lex', 'leaf_language_ord_is_lex', 'leaf_script_ord_is_lex', 'leaf_region_ord_is_lex']]
+B_SUPER = B('super', 'both parsers on the same input: 12 heads (incl. 5-8 letter languages) x <= 3 subtags of the boundary-class alphabet; id / extensions / to_string agreement, the '
+                    'id-before-the-first-singleton clause and the From conversions')
 PROPS['C13']['standin'] = ['lid', 'locale']
+PROPS['C13']['bounded'] = [B_SUPER]
 PROPS['C12']['verus'] = PROPS['C12']['verus'] + LOC_RT
 PROPS['C12']['verus'] = PROPS['C12']['verus'] + [V('langid', r'::vspec::lemma_(lid_ser_injective|lid_parse_ser|lid_roundtrip|strict_sorted_same_set|lid_expected_unique)$')]
 
